@@ -131,7 +131,16 @@ struct LaunchRequestHandler {}
 impl Handler<LaunchRequest> for LaunchRequestHandler {
     fn handle(&self, conn: &mut DebugSession, args: LaunchRequestArguments) -> MosResult<()> {
         conn.no_debug = args.no_debug.unwrap_or_default();
-        let cfg = conn.lock_lsp().config().unwrap();
+        let cfg = conn.lock_lsp().config();
+        let cfg = match cfg {
+            Some(cfg) => cfg,
+            None => {
+                return Err(Diagnostics::from(
+                    Diagnostic::error().with_message("Could not find a valid mos.toml."),
+                )
+                .into());
+            }
+        };
 
         let root = PathBuf::from(args.workspace.clone());
         let src_path = root.join(PathBuf::from(&cfg.build.entry));
